@@ -1,7 +1,7 @@
 #!/bin/sh
 # runs every registered check in the given tier sequentially; prints the summary lines
 TIER="${1:-quick}"
-cd /verif
+cd "$(dirname "$0")/.."
 for p in C01 C02 C03 C04 C05 C06 C07 C08 C09 C10 C11 C12 C13 C14 C15 C16 C17 C18 C19 C20; do
   /usr/bin/time -f "%es" bin/check $p $TIER 2>&1 | grep -v "^  harness" | cut -c1-300 | tail -${LINES_PER:-4}
 done
